@@ -88,6 +88,14 @@ class MgrProp(core.Prop):
             sess = mgr.gen_history(rng, kind, False, script, [], max_ops=6 if kind == 0 else 40, episodes=2, p_bad=0.0,
                                    p_reset=0.0)
             yield self._case(kind, False, script, [], sess)
+        # ... and more than a thousand: turn-based, everybody but the first and the last agent finishes on the first
+        # action, so the second round walks past 1000+ finished agents in ONE call (a walk that must be a loop)
+        for _ in range(1 if quick else 3):
+            n = rng.randint(1040, 1100)
+            script = {"n": n, "learning": [True] * n, "doneAt": [3] + [1] * (n - 2) + [3],
+                      "finishAt": 1000000, "noms": [], "plainIds": rng.random() < 0.5}
+            sess = mgr.gen_history(rng, 1, False, script, [], max_ops=n + 8, episodes=1, p_bad=0.0, p_reset=0.0)
+            yield self._case(1, False, script, [], sess)
         # the packaged examples that are modelled: real managers over real example objects ...
         yield from p_examples.gen_mgr_cases(rng, 260 if quick else 6000)
         if self.pid == "C01":
